@@ -11,6 +11,9 @@ class BoomBase(BaseException):
     """a failure that is not an Exception (like SystemExit, asyncio.CancelledError, pytest's Failed)"""
 
 
+EXC = {"Boom": Boom, "BoomBase": BoomBase, "SystemExit": SystemExit, "StopIteration": StopIteration, "KeyboardInterrupt": KeyboardInterrupt}
+
+
 def clog_task(i, tag, exc, stuck_s):
     """the failing task raises `exc` after a moment; every other task of the call stays busy for stuck_s seconds"""
     if exc is None:
@@ -38,7 +41,7 @@ def task(i, tag, fail, dur=0.0, logfile=None):
         finally:
             os.close(fd)
     if fail:
-        raise Boom(tag, i)
+        raise (EXC[fail] if isinstance(fail, str) else Boom)(tag, i)
     return (tag, i)
 
 
